@@ -5,6 +5,8 @@
 
 package extension
 
+//@ import qos "k8s.io/kubectl/pkg/util/qos"
+
 //@ spec func rangesOK() bool = PriorityProdValueMin <= PriorityProdValueMax && PriorityMidValueMin <= PriorityMidValueMax && PriorityBatchValueMin <= PriorityBatchValueMax && PriorityFreeValueMin <= PriorityFreeValueMax && (PriorityProdValueMax < PriorityMidValueMin || PriorityMidValueMax < PriorityProdValueMin) && (PriorityProdValueMax < PriorityBatchValueMin || PriorityBatchValueMax < PriorityProdValueMin) && (PriorityProdValueMax < PriorityFreeValueMin || PriorityFreeValueMax < PriorityProdValueMin) && (PriorityMidValueMax < PriorityBatchValueMin || PriorityBatchValueMax < PriorityMidValueMin) && (PriorityMidValueMax < PriorityFreeValueMin || PriorityFreeValueMax < PriorityMidValueMin) && (PriorityBatchValueMax < PriorityFreeValueMin || PriorityFreeValueMax < PriorityBatchValueMin)
 
 //@ spec func classOfValue(p int32) PriorityClass = (PriorityProdValueMin <= p && p <= PriorityProdValueMax) ? PriorityProd : ((PriorityMidValueMin <= p && p <= PriorityMidValueMax) ? PriorityMid : ((PriorityBatchValueMin <= p && p <= PriorityBatchValueMax) ? PriorityBatch : ((PriorityFreeValueMin <= p && p <= PriorityFreeValueMax) ? PriorityFree : DefaultPriorityClass)))
@@ -50,14 +52,15 @@ package extension
 //@   ensures #fn: result == podQoS(pod)
 //@   modifies nothing
 
-// The kubernetes QoS class of a pod (status field, else computed by kubectl's qos.GetPodQOS from the container
-// resources) is an uninterpreted observer of the pod here.
-//@ spec func kubeQoS(pod *corev1.Pod) corev1.PodQOSClass
+// The kubernetes QoS class of a pod: the status field when it is set, else what kubectl's qos.GetPodQOS computes from
+// the container resources (an uninterpreted observer of the pod, declared pure in /verif/lib/base.spec). Verified against
+// the body (no longer trusted): a change that ignores the status field, or prefers the computed class, fails #fn.
+// A nil pod panics (no return is reached), so no precondition is needed for this partial-correctness statement.
+//@ spec func kubeQoS(pod *corev1.Pod) corev1.PodQOSClass = len(pod.Status.QOSClass) > 0 ? pod.Status.QOSClass : qos.GetPodQOS(pod)
 
 //@ func GetKubeQosClass [C13]
-//@   ensures result == kubeQoS(pod)
+//@   ensures #fn: result == kubeQoS(pod)
 //@   modifies nothing
-//@   option trusted
 
 //@ spec func qosOfKube(k corev1.PodQOSClass) QoSClass = k == corev1.PodQOSGuaranteed ? QoSClassForGuaranteed : (k == corev1.PodQOSBurstable ? QoSLS : (k == corev1.PodQOSBestEffort ? QoSBE : QoSNone))
 
